@@ -349,6 +349,34 @@ class Interp:
         self.calls = []           # opaque / noted calls: (callee name, args values, line, loop)
 
     # -- fields -----------------------------------------------------------------
+    def member_width_kind(self, name):
+        """("slots", k): the member's column count is k * DIM in every instantiation of this class template (k DIM-wide
+        vectors per row); ("grid",): the same column count whatever DIM is (block storage); None: not a member, or the
+        instantiations at hand do not tell.  Decided from the types across instantiations, not from the member's name."""
+        tab = getattr(self.F, "_width_kinds", None)
+        if tab is None:
+            tab = self.F._width_kinds = {}
+            by_t = {}
+            for rn, r in self.F.records.items():
+                ta = r.get("targs") or []
+                if not ta or not isinstance(ta[0], int):
+                    continue
+                for fl in r["fields"]:
+                    ty = fl["ty"]
+                    if ty.get("c") == "eigen" and ty.get("rows") == -1 and isinstance(ty.get("cols"), int) and ty["cols"] > 0:
+                        by_t.setdefault((r.get("short"), tuple(ta[1:]), fl["name"]), {})[ta[0]] = ty["cols"]
+            for key, d in by_t.items():
+                if len(d) < 2:
+                    continue
+                ratios = {c_ / dim_ for dim_, c_ in d.items()}
+                if len(ratios) == 1 and float(next(iter(ratios))).is_integer():
+                    tab[key] = ("slots", int(next(iter(ratios))))
+                elif len(set(d.values())) == 1:
+                    tab[key] = ("grid",)
+        r = self.rec or {}
+        ta = r.get("targs") or []
+        return tab.get((r.get("short"), tuple(ta[1:]), name))
+
     def field_names(self):
         return [f["name"] for f in (self.rec or {}).get("fields", [])]
 
@@ -407,6 +435,11 @@ class Interp:
                 dim = self.dim()
                 if dim and cl == dim:
                     return Container(name, "rows")
+                fk = self.member_width_kind(name)
+                if fk is not None and fk[0] == "slots" and dim and cl == fk[1] * dim:
+                    return Container(name, "rows", slots=fk[1]) if fk[1] > 1 else Container(name, "rows")
+                if fk is not None and fk[0] == "grid":
+                    return Container(name, "grid")
                 if dim and cl % dim == 0 and cl // dim in (2, 3) and name.startswith("ws_gd"):
                     return Container(name, "rows", slots=cl // dim)
                 if dim and cl in (4, 9) and cl != dim:
